@@ -169,6 +169,23 @@ func genC04(seed uint64, tier string) *c04Scenario {
 		}
 		s.Streams = append(s.Streams, st)
 	}
+	if s.Class == "A" && r.Chance(1, 7) && netBudget(s.Net, 600000) >= 300000 {
+		// padding-heavy: hundreds of small frames with up to 255 bytes of padding
+		// each, so the padding alone is several times the stream window
+		s.Server.StreamWindow = int32(core.Pick(r, 0, 65535, 65536))
+		s.Streams = s.Streams[:0]
+		for i := r.Range(1, 2); i > 0; i-- {
+			mf := core.Pick(r, 20, 50, 100)
+			st := c04Stream{HMode: "all", MaxFrame: mf, PadPct: 100, PadMax: 255}
+			tot := mf * r.Range(400, 700)
+			for tot > 0 {
+				m := min(r.Range(1000, 30000), tot)
+				st.Msgs = append(st.Msgs, m)
+				tot -= m + 5
+			}
+			s.Streams = append(s.Streams, st)
+		}
+	}
 	if s.Class == "B" {
 		for k := r.Range(1, 2); k > 0; k-- {
 			st := &s.Streams[r.Intn(n)]
@@ -176,10 +193,23 @@ func genC04(seed uint64, tier string) *c04Scenario {
 			for _, m := range st.Msgs {
 				tot += 5 + m
 			}
-			st.ExcessAt = r.Intn(tot + 1)
+			// The excess is decidable from outside only while the application is not
+			// reading (otherwise the server may already have decided grants that
+			// are not on the wire yet): the handler holds for 5 s without reading.
+			st.HMode = core.Pick(r, "none", "none", "some")
+			st.HHoldNs = 5000000000
+			lo := 0
+			if st.HMode == "some" {
+				st.HK = r.Range(1, len(st.Msgs))
+				for _, m := range st.Msgs[:st.HK] {
+					lo += 5 + m
+				}
+			}
+			st.ExcessAt = lo + r.Intn(max(min(tot, 60000)-lo, 0)+1)
 			st.ExcessBy = core.Pick(r, 1, 1, 2, 5, 100, 5000)
 			st.ExcessConn = r.Chance(1, 5)
 			st.Declared = 0
+			st.GapNs = 0
 		}
 	}
 	return s
@@ -193,6 +223,7 @@ type c04Rec struct {
 	done      bool // everything sent
 	aborted   bool
 	excessTry bool // the peer sent its over-credit frame
+	excessQuiet bool // ... while the handler was holding (not reading): the excess is decidable
 	excessWas int  // credit it had when it did
 }
 
@@ -378,6 +409,8 @@ func runC04(e *core.Env, s *c04Scenario) {
 			code, rst := led.srvRst[id]
 			if led.overClosed[id] {
 				e.Probe("excess_on_closed_stream") // dropped with the stream: nothing to reject
+			} else if !rec.excessQuiet {
+				e.Probe("excess_while_application_reading") // grants may have been decided but not yet written
 			} else if !(rst && code == http2.ErrCodeFlowControl) && len(led.srvGoAway) == 0 && !p.Closed {
 				e.Violate("excess_not_rejected", "stream %d: the peer exceeded the advertised stream window (delivered %d > advertised %d) but at quiescence there is neither RST_STREAM(FLOW_CONTROL_ERROR) (rst=%v code=%v) nor a connection error", id, led.recv[id], led.iws+led.upd[id], rst, code)
 			} else {
@@ -408,7 +441,7 @@ func runC04(e *core.Env, s *c04Scenario) {
 		}
 		if st != nil && st.WaitingCredit {
 			e.Probe("peer_blocked_at_quiescence_handler_not_reading")
-			if p.ConnWin <= 0 {
+			if p.ConnWin <= 0 && !classB {
 				e.Violate("connection_window_wedged", "at quiescence the connection window is %d although connection-level credit does not depend on the application reading (stream %d blocked)", p.ConnWin, id)
 			}
 		}
@@ -430,7 +463,7 @@ func runC04(e *core.Env, s *c04Scenario) {
 			}
 		}
 	}
-	if !anyOver && !p.Closed {
+	if !anyOver && !p.Closed && !classB {
 		// connection level: credit does not depend on application reads
 		if p.ConnWin <= 0 {
 			e.Violate("connection_window_wedged", "at quiescence the connection window advertised to the peer is %d", p.ConnWin)
@@ -500,13 +533,16 @@ func c04Send(w *World, p *Peer, s *c04Scenario, rec *c04Rec) {
 			// ExcessBy bytes more than its credit (frames of at most 16 KiB; junk
 			// once the request bytes run out)
 			p.Flush()
-			time.Sleep(time.Duration(s.Net.LatencyNs)*3 + time.Millisecond)
+			time.Sleep(time.Duration(s.Net.LatencyNs)*3 + 20*time.Millisecond)
 			credit := st.SendWin
 			if sp.ExcessConn {
 				credit = p.ConnWin
 			}
 			rec.excessTry, rec.excessWas = true, int(credit)
-			if credit < 0 || abort() || (sp.ExcessConn && credit+int64(sp.ExcessBy) > st.SendWin) {
+			if inv := w.invByTag[rec.tag]; len(inv) == 1 && !inv[0].InRecv && !inv[0].Returned {
+				rec.excessQuiet = true
+			}
+			if credit < 0 || abort() || (sp.ExcessConn && credit+int64(sp.ExcessBy) > st.SendWin) || credit+int64(sp.ExcessBy) > int64(netBudget(s.Net, 300000)) {
 				e.Probe("excess_attempt_skipped")
 				continue
 			}
@@ -517,7 +553,18 @@ func c04Send(w *World, p *Peer, s *c04Scenario, rec *c04Rec) {
 			junk := []byte{0, 0x00, 0x3d, 0x09, 0x00}
 			junkOff := 0
 			for left := int(credit) + sp.ExcessBy; left > 0; {
-				n := min(left, maxFrame)
+				n := min(left, 16384)
+				if !sp.ExcessConn {
+					// exceed the stream window only: stay within the connection window
+					if p.ConnWin <= 0 {
+						p.WaitFor(-1, func() bool { return p.ConnWin > 0 || abort() })
+						if abort() {
+							return
+						}
+						continue
+					}
+					n = min(n, int(p.ConnWin))
+				}
 				payload := make([]byte, n)
 				k := copy(payload, buf)
 				buf = buf[k:]
